@@ -166,7 +166,7 @@ SPEC = dict(
                       'CTX_try_register_remote_queue_notification']),
         # C14-1 in full ("the loop blocks only after marking the remote queue inactive and submitting the eventfd poll"): fails on the current
         # tree (genuine defect: probes/native/uring_cq_full_blocks_without_wakeup.cpp): thorough tier only until it is fixed or recorded
-        dict(name='run_impl_body_wakeup', harness='h_run_loop0_body', enforce='run__loop0_body', defines=['VF_STRICT_WAKEUP'], tier='thorough',
+        dict(name='run_impl_body_wakeup', harness='h_run_loop0_body', enforce='run__loop0_body', defines=['VF_STRICT_WAKEUP'],
              replace=['CTX_execute_pending_local', 'CTX_acquire_completion_queue_items', 'CTX_acquire_remote_queued_items',
                       'CTX_try_register_remote_queue_notification']),
         dict(name='run_pending_io_body', harness='h_pio_loop1_body', enforce='pio__loop1_body', replace=['CTX_can_submit_io']),
